@@ -600,7 +600,7 @@ def parallel_real_oracle(c, o, s, which):
     """`Y` cases: parallel_fasta / parallel_fastq on real readers against S and against sequential reading."""
     v = Verdict()
     t = c.split(' ')
-    fmt, T, stop = t[1], int(t[2]), (None if t[5] == '-' else int(t[5]))
+    fmt, T, stop = t[1][:2], int(t[2]), (None if t[5] == '-' else int(t[5]))
     if 'HANG' in o or 'leak=0' not in o:
         if 'terminate' in which or 'HANG' in o:
             v.failures.append('parallel call hung or left threads behind: %s' % o[-80:])
